@@ -196,9 +196,11 @@ def _from_value(val, ty):
 
 
 class ModuleTracer(object):
-    def __init__(self, modname, prefix, sigs, np_alias):
+    def __init__(self, modname, prefix, sigs, np_alias, patches=None, extra_defs=None):
         self.modname, self.prefix, self.sigs, self.np_alias = modname, prefix, sigs, np_alias
         self.mod = importlib.import_module(modname)
+        self.patches = patches or {}
+        self.extra_defs = extra_defs or {}
         self.traced = {}    # pyname -> Traced
         self.order = []
         self.orig = {}
@@ -234,48 +236,56 @@ class ModuleTracer(object):
         w.__name__ = tr.pyname
         return w
 
-    def trace_all(self):
-        import xfab
+    def enter(self):
+        """install the shims in the traced module (kept until exit, so that later tracers calling into this
+        module see symbolic-safe code and emit calls to the already generated definitions)"""
         mod = self.mod
-        saved_np = getattr(mod, self.np_alias)
-        saved = {}
-        old_checks = xfab.CHECKS._run_checks
-        xfab.CHECKS._run_checks = False
-        try:
-            setattr(mod, self.np_alias, NumpyProxy(saved_np))
-            for nm, shim in (('float', _float_shim), ('degrees', _degrees_shim)):
-                saved[nm] = mod.__dict__.get(nm, None)
-                mod.__dict__[nm] = shim
-            for entry in self.sigs:
-                pyname, argtys, outty = entry[:3]
-                fixed = entry[3] if len(entry) > 3 else None
-                coqsuffix = entry[4] if len(entry) > 4 else ''
-                f = self.orig.get(pyname) or getattr(mod, pyname)
-                self.orig.setdefault(pyname, f)
-                params = [p for p in inspect.signature(f).parameters]
-                if fixed:
-                    params = [p for p in params if p not in fixed]
-                params = params[:len(argtys)]
-                argnames = [(p + '_' if p in RESERVED else p) for p in params]
-                tr = Traced(self.modname, pyname, self.prefix + pyname.lstrip('_') + coqsuffix, argtys, outty,
-                            argnames, fixed)
-                tr.pynames = params
-                self._trace_one(tr, f)
-                key = pyname + coqsuffix
-                self.traced[key] = tr
-                self.order.append(key)
-                if not fixed:
-                    mod.__dict__[pyname] = self._wrapper(tr, f)
-        finally:
-            setattr(mod, self.np_alias, saved_np)
-            for nm, v in saved.items():
-                if v is None:
-                    mod.__dict__.pop(nm, None)
-                else:
-                    mod.__dict__[nm] = v
-            for pyname, f in self.orig.items():
-                mod.__dict__[pyname] = f
-            xfab.CHECKS._run_checks = old_checks
+        self._saved_np = getattr(mod, self.np_alias)
+        self._saved = {}
+        setattr(mod, self.np_alias, NumpyProxy(self._saved_np))
+        shims = [('float', _float_shim), ('degrees', _degrees_shim)]
+        shims += list(self.patches.items()) + list(self.extra_defs.items())
+        for nm, shim in shims:
+            self._saved[nm] = mod.__dict__.get(nm, None)
+            mod.__dict__[nm] = shim
+
+    def exit(self):
+        mod = self.mod
+        setattr(mod, self.np_alias, self._saved_np)
+        for nm, v in self._saved.items():
+            if v is None:
+                mod.__dict__.pop(nm, None)
+            else:
+                mod.__dict__[nm] = v
+        for pyname, f in self.orig.items():
+            mod.__dict__[pyname] = f
+
+    def trace(self):
+        mod = self.mod
+        for entry in self.sigs:
+            pyname, argtys, outty = entry[:3]
+            fixed = entry[3] if len(entry) > 3 else None
+            coqsuffix = entry[4] if len(entry) > 4 else ''
+            f = self.orig.get(pyname) or getattr(mod, pyname)
+            self.orig.setdefault(pyname, f)
+            params = [p for p in inspect.signature(f).parameters]
+            if fixed:
+                params = [p for p in params if p not in fixed]
+            params = params[:len(argtys)]
+            argnames = [(p + '_' if p in RESERVED else p) for p in params]
+            tr = Traced(self.modname, pyname, self.prefix + pyname.lstrip('_') + coqsuffix, argtys, outty,
+                        argnames, fixed)
+            tr.pynames = params
+            self._trace_one(tr, f)
+            key = pyname + coqsuffix
+            self.traced[key] = tr
+            self.order.append(key)
+            if not fixed and pyname not in self.extra_defs:
+                mod.__dict__[pyname] = self._wrapper(tr, f)
+        return self.traced
+
+    def trace_all(self):
+        session([self])
         return self.traced
 
     def _trace_one(self, tr, f):
@@ -325,6 +335,10 @@ class ModuleTracer(object):
     def callenv(self):
         env = {'minv': _np.linalg.inv, 'mdet': _np.linalg.det,
                'qr_oracle': lambda m: tuple(_np.linalg.qr(m))}
+        for other in ALL_TRACERS:
+            if other is not self:
+                for key, tr in other.traced.items():
+                    env[tr.coqname] = other._evaluator(tr)
         for key, tr in self.traced.items():
             env[tr.coqname] = self._evaluator(tr)
         return env
@@ -398,21 +412,75 @@ def detector_sigs():
     return sigs
 
 
+class _FFTable(object):
+    """stands for atomlib.formfactor during tracing: the entry of any element is nine symbolic reals"""
+
+    def __init__(self, syms):
+        self.syms = syms
+
+    def __getitem__(self, key):
+        return list(self.syms)
+
+
+class _AtomlibProxy(object):
+    def __init__(self):
+        self.formfactor = None
+
+
+def structure_tracer():
+    import xfab.structure as st
+    proxy = _AtomlibProxy()
+
+    def FormFactor_coeffs(a1, a2, a3, a4, b1, b2, b3, b4, c, stl):
+        proxy.formfactor = _FFTable([a1, a2, a3, a4, b1, b2, b3, b4, c])
+        return st.FormFactor('X', stl)
+    sigs = [('FormFactor_coeffs', ['R'] * 10, 'R'),
+            ('Uij2betaij', ['V6', 'V6'], 'M3')]
+    return ModuleTracer('xfab.structure', 'structure_', sigs, 'n', patches={'atomlib': proxy},
+                        extra_defs={'FormFactor_coeffs': FormFactor_coeffs})
+
+
 def make_tracers():
     return [
         ModuleTracer('xfab.tools', 'tools_', SIG_TL, 'n'),
         ModuleTracer('xfab.laue', 'laue_', SIG_TL, 'np'),
         ModuleTracer('xfab.detector', 'detector_', detector_sigs(), 'n'),
+        structure_tracer(),
     ]
+
+
+ALL_TRACERS = []
+
+
+def session(tracers):
+    ALL_TRACERS[:] = list(tracers)
+    import xfab
+    old_checks = xfab.CHECKS._run_checks
+    xfab.CHECKS._run_checks = False
+    entered = []
+    try:
+        for mt in tracers:
+            mt.enter()
+            entered.append(mt)
+        for mt in tracers:
+            mt.trace()
+    finally:
+        for mt in reversed(entered):
+            mt.exit()
+        xfab.CHECKS._run_checks = old_checks
 
 
 def generate(outdir, write):
     """trace everything; write(path, text) writes only if changed.  Returns {modname: ModuleTracer}"""
     res = {}
-    for mt in make_tracers():
-        mt.trace_all()
+    tracers = make_tracers()
+    session(tracers)
+    for mt in tracers:
         short = mt.modname.split('.')[-1]
-        text = HEADER % short + mt.emit() + '\nEnd Gen.\n'
+        hdr = HEADER % short
+        if short in ('structure', 'detector', 'symmetry'):
+            hdr = hdr.replace('From XV Require Import RealLib Mat3 Atan2.', 'From XV Require Import RealLib Mat3 Atan2 Gen_tools.')
+        text = hdr + mt.emit() + '\nEnd Gen.\n'
         write('%s/Gen_%s.v' % (outdir, short), text)
         res[short] = mt
     return res
